@@ -18,6 +18,7 @@ From ClapModel Require Import Base.Bytes Base.Machine Base.Utf8.
 From ClapModel Require Import Parse.Cmd Parse.Build Parse.Valid Parse.Matcher Parse.Errors Parse.Validator Parse.Parser.
 From ClapModel Require Import ParseProofs.Safe ParseProofs.Totality ParseProofs.TotalityMain ParseProofs.FlagSubClass ParseProofs.FsTotality ParseProofs.FsAny ParseProofs.FsLine.
 From ClapModel Require ParseProofs.Sites.
+From ClapModel Require Import Errors.RenderModel Errors.RenderLink.
 From Coq Require Import ZArith Lia.
 From RecordUpdate Require Import RecordSet.
 Import RecordSetNotations.
@@ -383,3 +384,54 @@ Example single_clusters_examples :
      (* one multi-byte character, a lone dash, `--`, a long option with a value, a non-UTF-8 byte are all allowed *)
   /\ single_clusters [[112]; [45; 120; 61]] = false.                                              (* `-x=` is a cluster *)
 Proof. repeat split; vm_compute; reflexivity. Qed.
+
+(** * the property statement at the entry point, in one theorem *)
+Theorem parser_errors_render_top c0 argv e : parse_top c0 argv = OErr e ->
+  rich_alternatives e <> []
+  /\ forall r, In r (rich_alternatives e) ->
+       constructed r
+       /\ (r_kind r = e_kind e \/ Some (r_kind r) = e_alt e)
+       /\ (forall dbg s, render dbg r <> Panic s)
+       /\ (rich_expected r = true -> forall dbg, exists txt, write_dynamic_context dbg r = Done (true, txt)).
+Proof.
+  unfold parse_top. destruct (is_set s_no_binary_name c0); [apply parser_errors_render|].
+  destruct argv as [|bin rest]; apply parser_errors_render.
+Qed.
+
+Theorem entry_point_summary c0 argv : unbuilt c0 = true -> valid c0 = true ->
+  match parse_top c0 argv with
+  | OOk _ => True
+  | OErr e =>
+      (rich_alternatives e <> [] /\ forall r, In r (rich_alternatives e) -> forall dbg s, render dbg r <> Panic s)
+      /\ (is_set s_ignore_errors c0 = true -> e_kind e = EDisplayHelp \/ e_kind e = EDisplayVersion)
+  | OPanicked s => s = 920 /\ flag_sub_class c0 = false /\ single_clusters argv = false
+  | OOutOfFuel | OInvalidConfig => False
+  end.
+Proof.
+  intros Hu Hv.
+  pose proof (parse_top_only_920 c0 argv Hu Hv) as H9.
+  destruct (parse_top c0 argv) as [m|e|s| |] eqn:E; cbn in H9.
+  - exact I.
+  - split.
+    + destruct (parser_errors_render_top c0 argv e E) as [Hne Hall]. split; [exact Hne|].
+      intros r Hr. apply (Hall r Hr).
+    + intros Hig. pose proof (parse_top_ignore_errors_any c0 argv Hu Hv Hig) as Hi. rewrite E in Hi. exact Hi.
+  - split; [exact H9|split].
+    + destruct (flag_sub_class c0) eqn:Hc; [|reflexivity]. exfalso.
+      pose proof (parse_top_total_fs_any_bin c0 argv Hc Hv) as T. rewrite E in T. exact T.
+    + destruct (single_clusters argv) eqn:Hl; [|reflexivity]. exfalso.
+      pose proof (parse_top_single_clusters c0 argv Hu Hv Hl) as T. rewrite E in T. exact T.
+  - exact H9.
+  - (* OInvalidConfig: the gate accepted the definition *)
+    exfalso. revert E. unfold parse_top.
+    assert (D : forall c toks, valid c = true -> do_parse c toks <> OInvalidConfig).
+    { intros c toks Hvc. unfold do_parse. rewrite Hvc. cbn [negb].
+      destruct (get_matches_with _ _ _ _) as [st|e st|s]; try discriminate.
+      - destruct (_ && _); discriminate.
+      - destruct s; discriminate. }
+    destruct (is_set s_no_binary_name c0); [apply D; exact Hv|].
+    destruct argv as [|bin rest]; [apply D; exact Hv|].
+    destruct (c_bin_name c0); [apply D; exact Hv|].
+    destruct (utf8_valid bin && negb (is_nil bin)); [|apply D; exact Hv].
+    apply D. rewrite valid_bin_name. exact Hv.
+Qed.
